@@ -255,6 +255,17 @@ def enumGhostIdentPass (g : GhostData) (es : Errors) : Errors :=
   | .member (.unnamed _) => es.insert "Enum-level #[ghosts(...)] should name a variant of the other type, not an index."
   | _ => es
 
+/-- struct update syntax (`..expr`) has a meaning only where a struct expression is built: not in into_existing, and not
+    in an Into body that is assembled on a default value (a parameterless `#[parent]` member) -/
+def updatePass (input : DataType) (es : Errors) (x : TraitAttrCore × Kind) : Errors :=
+  if x.1.update.isSome && !x.2.isFrom then
+    if x.2.isIntoExisting then
+      es.insert "Struct update syntax '..' is not applicable to 'into_existing' instructions: there is no struct expression to complete."
+    else if input.members.any (fun m => m.attrs.hasParameterlessParentAttr x.1.ty) then
+      es.insert ("Struct update syntax '..' is not applicable next to a parameterless #[parent] member: " ++ x.1.ty.pathStr ++ " is built from its default value.")
+    else es
+  else es
+
 /-- `validate`: the diagnostics in report order (empty = accepted) -/
 def validate (input : DataType) : Errors :=
   let attrs := input.attrs
@@ -268,6 +279,7 @@ def validate (input : DataType) : Errors :=
   let es := validateChildParentsAttrs attrs.childParentsAttrs typePaths es
   let es := validateWhereAttrs attrs.whereAttrs typePaths es
   let byKind := attrsByKind attrs
+  let es := byKind.foldl (updatePass input) es
   let es := input.members.foldl (validateMember input isEnum typePaths byKind) es
   match input with
   | .struct s => validateFields s byKind typePaths es
